@@ -1,0 +1,57 @@
+/***************************************************************************
+ * Verification hooks (not part of the library API).                        *
+ *                                                                          *
+ * Everything in this file is inert unless XSIMD_VERIF_HOOKS is defined:    *
+ * without it XSIMD_VERIF_LOOP_TICK() expands to ((void)0) and nothing else *
+ * is declared.                                                             *
+ ****************************************************************************/
+
+#ifndef XSIMD_VERIF_HOOKS_HPP
+#define XSIMD_VERIF_HOOKS_HPP
+
+#ifdef XSIMD_VERIF_HOOKS
+
+namespace xsimd_verif
+{
+    // Substitutable CPUID / XGETBV source for xsimd_cpuid.hpp.  When cpuid is null the real instructions are used.
+    struct cpuid_source
+    {
+        void (*cpuid)(int reg[4], int level, int count);
+        unsigned (*xgetbv)();
+        bool bypass_cache; // available_architectures() re-detects on every call
+    };
+    inline cpuid_source& source() noexcept
+    {
+        static cpuid_source s = { nullptr, nullptr, false };
+        return s;
+    }
+
+    // Iteration counter for the data-dependent loops of the math kernels.
+    struct loop_state
+    {
+        long ticks;
+        long limit; // 0: unlimited
+        void (*overflow)(); // called when ticks exceeds limit (may not return)
+    };
+    inline loop_state& loops() noexcept
+    {
+        static thread_local loop_state s = { 0, 0, nullptr };
+        return s;
+    }
+    inline void loop_tick() noexcept
+    {
+        loop_state& s = loops();
+        if (++s.ticks > s.limit && s.limit > 0 && s.overflow)
+            s.overflow();
+    }
+}
+
+#define XSIMD_VERIF_LOOP_TICK() ::xsimd_verif::loop_tick()
+
+#else
+
+#define XSIMD_VERIF_LOOP_TICK() ((void)0)
+
+#endif
+
+#endif
